@@ -47,7 +47,7 @@ CLAIMED = {
         technique="Coq proofs on lexer + literal models against independent canonical printers (strings for all byte strings, integers for all n, float layout for all digit strings/exponents with strconv as a Section oracle); three-way extraction correspondence",
         text="C09: for every byte string v, lexing quote(v) gives STRING v and the printer renders canon_string v (two-level escaping); for all n: UInt64_n below 2^64, Int64_-n down to -2^63, -0 as UInt64_0, float branch beyond, hex/binary by value; FormatFloat's fixed/exponent layout equals an independent canon_float for every digit string and exponent (which digits are shortest is strconv's contract, an explicit premise); nesting in arrays/tuples and negation at any depth. Tied by comparing code, extracted model and spec on all 1- and 2-byte strings, integer and float boundaries and random cases.",
         design_ref="DESIGN.md §4 C09",
-        note="Trusted: strconv oracle contract; hand-written models validated by correspondence. Open known finding: binary/octal/underscored-hex literals >= 2^64 print as strings (C09_big_binary_refuted)."),
+        note="Trusted: strconv oracle contract; hand-written models validated by correspondence."),
     "C10": dict(
         technique="Coq interleaving theorem instantiated by a shared-write inventory regenerated from source (go/types); obligation by vm_compute; race-detector workload",
         text="C10_concurrent_calls_behave_as_alone: threads whose shared write set is empty are data-race free and each observes exactly what it observes alone, for every schedule (Conc/Interleave.v); the write set of the library is the inventory of writes to package-level variables and through AST arguments regenerated from /repo on every run, and the obligation 'inventory has no shared write' is computed in the kernel. A new package-level flag, a memoising write into an AST node, a map range in the printer break the obligation and name the site. go build -race workload on distinct trees and on one shared tree compares every result with the sequential baseline.",
